@@ -30,14 +30,29 @@
 (*   server  how the server builds the chain in front of the gate:         *)
 (*           "default" | "chain" (api.WithChain) | "use" (Server.Use) |    *)
 (*           "chain+use".  The verdict must not depend on it.              *)
+(*   layout  which signature-protected route groups the server has and     *)
+(*           which keys each of them is configured with (Conf below: route *)
+(*           group -> fingerprint name -> RSA key):                        *)
+(*           "one"    one group g1 with both keys (fa -> KA, fb -> KB)     *)
+(*           "split"  two groups, g1 with fa -> KA, g2 with fb -> KB       *)
+(*           "alias"  two groups that use the SAME fingerprint name for    *)
+(*                    different keys: g1 fa -> KA, g2 fa -> KB             *)
+(*   group   the route group the request is sent to (and signed for)       *)
+(*           A key is "configured" for a route when it is in the           *)
+(*           PrivateKeys of the route's own group: fp "known" names fa,    *)
+(*           "known2" names fb; secret "ok" is encrypted for KA ("known",  *)
+(*           "unknown") resp. KB ("known2"), "crossed" for the other one.  *)
 (* The statement: the handler runs iff the header decrypts under a         *)
 (* configured key, the timestamp is within the tolerance and the HMAC      *)
 (* matches; altering any signed field yields 403.                          *)
 (***************************************************************************)
 EXTENDS Integers, Sequences, FiniteSets, TLC
 
-CONSTANTS MaxTamper,  \* how many fields may be altered together
-          Servers     \* server constructions offered (subset of AllServers)
+CONSTANTS MaxTamper,   \* how many fields may be altered together
+          Servers,     \* server constructions offered (subset of AllServers)
+          Layouts,     \* key layouts offered (subset of DOMAIN Conf)
+          SideMethods, \* methods and timestamp offsets offered on the layouts with two groups
+          SideOffsets  \* (the full product, and more than one altered field, is driven on layout "one")
 
 VARIABLES base, picked, out
 vars == <<base, picked, out>>
@@ -54,9 +69,28 @@ Vias    == {"sized", "unknown", "wire"}
 
 Within(ts) == ts \in {"now", "-tol", "+tol"}
 
+\* route group -> fingerprint name -> RSA key, per layout
+Conf == [one   |-> [g1 |-> [fa |-> "KA", fb |-> "KB"]],
+         split |-> [g1 |-> [fa |-> "KA"], g2 |-> [fb |-> "KB"]],
+         alias |-> [g1 |-> [fa |-> "KA"], g2 |-> [fa |-> "KB"]]]
+GroupsOf(l) == DOMAIN Conf[l]
+
+\* the fingerprint name a request carries and the RSA key its secret is encrypted for
+FpName(fp) == IF fp = "known" THEN "fa" ELSE IF fp = "known2" THEN "fb" ELSE "fx"
+EncKey(fp, sec) == IF (fp = "known2") = (sec = "ok") THEN "KB" ELSE "KA"
+
+\* the header decrypts under a key configured for group g of the layout
+DecryptsIn(r, g) ==
+  /\ r.fp # "missing" /\ r.secret # "garbled"
+  /\ FpName(r.fp) \in DOMAIN Conf[r.layout][g]
+  /\ Conf[r.layout][g][FpName(r.fp)] = EncKey(r.fp, r.secret)
+Decrypts(r) == DecryptsIn(r, r.group)
+
+\* the header decrypts under a key of ANOTHER route group of the same server only
+Foreign(r) == ~Decrypts(r) /\ \E g \in GroupsOf(r.layout) \ {r.group} : DecryptsIn(r, g)
+
 Pass(r) ==
-  /\ r.fp \in {"known", "known2"}
-  /\ r.secret = "ok"
+  /\ Decrypts(r)
   /\ Within(r.ts)
   /\ r.tamper = {}
 
@@ -68,17 +102,22 @@ Init == base = NoBase /\ picked = FALSE /\ out = [op |-> "init"]
 
 PickBase ==
   /\ base = NoBase
-  /\ \E m \in Methods, fp \in Fps, s \in Secrets, hasbody \in BOOLEAN, via \in Vias, sv \in Servers :
+  /\ \E m \in Methods, fp \in Fps, s \in Secrets, hasbody \in BOOLEAN, via \in Vias, sv \in Servers,
+        l \in Layouts :
+     \E g \in GroupsOf(l) :
         /\ (hasbody => m \in {"POST", "PUT", "DELETE"})
         /\ (fp = "missing" => s = "ok")
         /\ (via # "sized" => sv = "default")     \* (keeps the product small; the two are independent)
-        /\ base' = [method |-> m, fp |-> fp, secret |-> s, body |-> hasbody, via |-> via, server |-> sv]
+        /\ (l # "one" => via = "sized" /\ m \in SideMethods)
+        /\ base' = [method |-> m, fp |-> fp, secret |-> s, body |-> hasbody, via |-> via, server |-> sv,
+                    layout |-> l, group |-> g]
   /\ out' = [op |-> "base"]
   /\ UNCHANGED picked
 
 Pick(r) ==
   /\ ~picked /\ picked' = TRUE
-  /\ out' = [op |-> "sig", req |-> r, expect |-> IF Pass(r) THEN "pass" ELSE "deny"]
+  /\ out' = [op |-> "sig", req |-> r, expect |-> IF Pass(r) THEN "pass" ELSE "deny",
+             foreign |-> Foreign(r), conf |-> Conf[r.layout]]
   /\ UNCHANGED base
 
 PickRest ==
@@ -88,8 +127,10 @@ PickRest ==
         /\ (base.fp = "missing" => tm \subseteq {"method", "path", "query", "body"})
         \* the extreme timestamps are offered on otherwise perfect requests only
         /\ (ts \in Extremes => tm = {} /\ base.via = "sized" /\ base.secret = "ok" /\ base.fp \in {"known", "known2"})
+        /\ (base.layout # "one" => ts \in SideOffsets /\ Cardinality(tm) <= 1)
         /\ Pick([method |-> base.method, fp |-> base.fp, secret |-> base.secret, ts |-> ts,
-                 body |-> base.body, via |-> base.via, server |-> base.server, tamper |-> tm])
+                 body |-> base.body, via |-> base.via, server |-> base.server, tamper |-> tm,
+                 layout |-> base.layout, group |-> base.group])
 
 Next == PickBase \/ PickRest
 
@@ -99,8 +140,20 @@ Spec == Init /\ [][Next]_vars
 AnyTamperDenied == picked /\ out.req.tamper # {} => out.expect = "deny"
 \* an untouched request of an honest client with a tolerated clock passes
 HonestPasses ==
-  picked /\ out.req.tamper = {} /\ out.req.fp \in {"known", "known2"} /\ out.req.secret = "ok"
+  picked /\ out.req.tamper = {} /\ Decrypts(out.req)
          /\ out.req.ts \in {"now", "-tol", "+tol"} => out.expect = "pass"
+\* with one route group holding both keys the verdict is the one of the plain product:
+\* a known fingerprint whose secret is encrypted for the key it names
+OneGroupAsBefore ==
+  picked /\ out.req.layout = "one" =>
+     (Decrypts(out.req) <=> out.req.fp \in {"known", "known2"} /\ out.req.secret = "ok")
+\* a route admits only under a key configured for its OWN group: a header that decrypts under
+\* another group's key only is denied, whatever else is right about the request
+ForeignKeyDenied == picked /\ out.foreign => out.expect = "deny"
+OwnGroupOnly ==
+  picked /\ out.expect = "pass" =>
+     /\ FpName(out.req.fp) \in DOMAIN out.conf[out.req.group]
+     /\ out.conf[out.req.group][FpName(out.req.fp)] = EncKey(out.req.fp, out.req.secret)
 \* the way the body is delivered (known length, unknown length, chunked on a real connection)
 \* never enters the verdict
 TransportIrrelevant ==
